@@ -170,7 +170,8 @@ func ZzC10Wire() {
 		zz.Reach("reset")
 		zz.Assert(len(resps) == 0, "a reset stream carries no response")
 		// a head request is an origin request with origin 0: its amount is irrelevant and never limited
-		zz.Assert(!(kind == 1 && origin == 0), "a head request (origin 0) is answered with the store's head whatever its amount")
+		// (amount 0 is an empty range, origin 0 or not: refused as malformed before the head dispatch)
+		zz.Assert(!(kind == 1 && origin == 0 && amount >= 1), "a head request (origin 0) is answered with the store's head whatever its amount")
 		return
 	}
 	zz.Assert(len(resps) > 0, "an answered request carries at least one response")
